@@ -7,6 +7,7 @@ import Asn1.X690
 import Proofs.TagLen
 import Proofs.X690Prim
 import Proofs.X690Der
+import Proofs.Kernels
 
 namespace Asn1.C03
 
@@ -79,6 +80,65 @@ example :
     let v : Val := .seq [.bool true, .int 7, .seqOf [.str [9, 9], .str [1]]]
     t.reg true Generated.derEnc true = true ∧ t.WF = true ∧ HasType t v = true ∧ noE3 true t v = true := by
   decide +kernel
+
+/-! ### the source itself: the octet kernels translated from /repo on this run (`Asn1/GenKernels.lean`)
+
+The definitions `GenK.encodeTag`, `GenK.encodeLength`, `GenK.oidEncode` are produced by `gen/py2lean.py`
+from the bodies of `AbstractItemEncoder.encodeTag`, `AbstractItemEncoder.encodeLength` and
+`ObjectIdentifierEncoder.encodeValue` as they are in the working tree; the statements below are therefore
+about what the code says now, not about a hand copy. -/
+
+/-- identifier octets written by the source = X.690 8.1.2, every class, form, number -/
+theorem source_identifier_is_x690 (t : Tag) (isConstructed : Bool) :
+    GenK.encodeTag (Kernels.tagTriple t) isConstructed
+      = .ok (Kernels.bytesInts (X690.ident t.cls (t.constructed || isConstructed) t.num)) := by
+  rw [Kernels.encodeTag_kernel, identifier_is_x690]
+
+/-- definite length octets written by the source = X.690 8.1.3 in the fewest octets, for every length
+    below 256^126; beyond that the source refuses ("Length octets overflow") -/
+theorem source_length_is_x690 (indefOk : Bool) (n : Nat) :
+    GenK.encodeLength indefOk (n : Int) true =
+      if (be256 n).length ≤ 126 ∨ n < 128 then .ok (Kernels.bytesInts (X690.len n))
+      else .error (.lib "PyAsn1Error") := by
+  rw [Kernels.encodeLength_kernel]
+  simp only [encLen, Bool.not_true, Bool.false_and, Bool.false_eq_true, if_false]
+  cases h : encodeLength n with
+  | some l =>
+    have := length_is_x690 n l h
+    subst this
+    have hc : (be256 n).length ≤ 126 ∨ n < 128 := by
+      unfold encodeLength at h
+      by_cases h1 : n < 128
+      · exact Or.inr h1
+      · simp only [h1, if_false] at h
+        by_cases h2 : (be256 n).length > 126
+        · simp [h2] at h
+        · exact Or.inl (by omega)
+    simp [hc, Kernels.liftLen]
+  | none =>
+    have hc : ¬ ((be256 n).length ≤ 126 ∨ n < 128) := by
+      unfold encodeLength at h
+      by_cases h1 : n < 128
+      · simp [h1] at h
+      · simp only [h1, if_false] at h
+        by_cases h2 : (be256 n).length > 126
+        · intro hh; rcases hh with hh | hh <;> omega
+        · simp [h2] at h
+    simp [hc, Kernels.liftLen]
+
+/-- in indefinite mode the source writes the single octet 80 exactly for the encoders that support it -/
+theorem source_length_indefinite (n : Nat) : GenK.encodeLength true (n : Int) false = .ok [128] := by
+  rw [Kernels.encodeLength_kernel]; rfl
+
+/-- OBJECT IDENTIFIER contents written by the source = X.690 8.19, with the same refusals -/
+theorem source_oid_is_x690 (arcs : List Nat) :
+    GenK.oidEncode (Kernels.ints arcs) = Kernels.liftOid (X690.oidOctets arcs) := by
+  rw [Kernels.oidEncode_kernel, oid_is_x690]
+
+/-- non-vacuity: [APPLICATION 16384] constructed; length 300; OID 2.999.3 -/
+example : GenK.encodeTag [64, 0, 16384] true = .ok [127, 129, 128, 0] := by rfl
+example : GenK.encodeLength false 300 true = .ok [130, 1, 44] := by rfl
+example : GenK.oidEncode [2, 999, 3] = .ok ([136, 55, 3], false, false) := by rfl
 
 /-- on a record: the encoder's octets, and hence (by the theorem) those of the transcription -/
 example :
